@@ -386,6 +386,11 @@ theorem applyModeOps_enc (st : RState) (src : Bytes) (s : EncStep) (h1 : NoEnc s
   rw [applyModeOps_noenc _ _ _ _ h2]
   simp [pureSrc, List.foldl_append, mApply]
 
+/-- the plaintext that is CBC-encrypted: everything from the packet of `es` on, with the final padding -/
+def encTail (w0 : WState) (pre : List Step) (es : EncStep) (post : List Step) : Bytes :=
+  stepBytes e (wSteps e w0 pre) es.step ++ stepsBytes e (wStep e (wSteps e w0 pre) es.step) post ++
+    padWords (padOf (wSteps e (wStep e (wSteps e w0 pre) es.step) post) / 4)
+
 /-- **Histories with the encryption switch.** `pre` is written and read in the clear, then both ends switch to
 AES-CBC just before the packet of `es`, then `post`. The wire is the clear prefix followed by the CBC encryption
 of the rest; the whole-stream reader, which decrypts the remaining stream when it switches, gets all packets. -/
@@ -394,7 +399,8 @@ theorem roundtrip_enc_pure (he : e.CipherOK) (n0 : Nat) (m0 : Mode) (hm0 : m0.en
     (hok : StepsOK e (freshW n0 m0) (pre ++ es.step :: post))
     (hpre : NoEncSteps pre) (h1 : NoEnc es.ms1) (h2 : NoEnc es.ms2) (hpost : NoEncSteps post) (f : Nat) :
     ∃ wf, finalW e (flat (pre ++ es.step :: post)) (freshW n0 m0) = some wf ∧
-      (∃ P, wf.wire e = stepsBytes e (freshW n0 m0) pre ++ cbcEnc e es.key es.iv P ∧ P.length % blockSize = 0) ∧
+      (wf.wire e = stepsBytes e (freshW n0 m0) pre ++ cbcEnc e es.key es.iv (encTail e (freshW n0 m0) pre es post) ∧
+        (encTail e (freshW n0 m0) pre es post).length % blockSize = 0) ∧
       readLoop (pureSrc e) e (schedOfOps e (flat (pre ++ es.step :: post)) (freshW n0 m0))
           (pre.length + ((post.length + (f + 1)) + 1)) ⟨n0, m0⟩ (wf.wire e) =
         ((pre ++ es.step :: post).map stepEv, some .eof) := by
@@ -476,7 +482,7 @@ theorem roundtrip_enc_pure (he : e.CipherOK) (n0 : Nat) (m0 : Mode) (hm0 : m0.en
       simpa [w0, freshW] using h
     rw [this]
   rw [hwS] at hf1
-  refine ⟨_, hf1, ⟨P, hwire, hPlen⟩, ?_⟩
+  refine ⟨_, hf1, ⟨hwire, hPlen⟩, ?_⟩
   rw [hwire]
   -- read the clear part
   have hpre_read := read_steps e (schedOfOps e (flat all) w0) pre w0 0 (cbcEnc e es.key es.iv P)
